@@ -182,6 +182,13 @@ class VerifBackend(ParallelBackendBase):
         return object()
 
     def retrieve_result_callback(self, out):
+        # Fetching the outcome is part of the first locked section of the callback.  If the code under test runs it
+        # WITHOUT Parallel._lock, it is a scheduling point of its own: the thread parks and the driver may run any other
+        # event before the fetch returns (the ECbStart event of the model is then recorded when the fetch has returned).
+        lock = getattr(self.parallel, "_lock", None)
+        owned = getattr(lock, "_is_owned", None)
+        if getattr(self.tl, "is_cb", False) and owned is not None and not owned():
+            GATE.park("fetch")
         if isinstance(out, BaseException):
             raise out
         return out
@@ -224,6 +231,8 @@ class Driver:
         self.next_trk = 0
         self.cb_threads = {}       # tracker id -> thread
         self.mid = []              # tracker ids parked between the two locked sections
+        self.fetching = {}         # tracker id -> how: callbacks parked in an unlocked retrieve_result_callback
+        self.script = []           # events plus ["cbfetch", tid, how] markers (replay input when a fetch parked)
         self.cb_started = set()
         self.pending_pull = False
         self.replay = case.get("mode") == "replay"
@@ -430,6 +439,7 @@ class Driver:
             # a TimeoutError outside a timeout event: how long had the caller been waiting?
             self.timeout_elapsed = round(time.time() - getattr(self, "pull_t0", time.time()), 2)
         self.events.append(ev)
+        self.script.append(ev)
         self.obs.append(obs)
         self.snaps.append(self._snap())
 
@@ -499,8 +509,24 @@ class Driver:
             self.anomalies.append("caller did not reach a scheduling point after dispatch")
         self._record(ev)
 
+    def ev_fetched(self, tid):
+        how = self.fetching.pop(tid)
+        t, state = self.cb_threads[tid]
+        GATE.release(t.ident, None)
+        time.sleep(0.002)
+        r = GATE.wait_parked_or(t.ident, lambda: state["done"], WAIT_STEP)
+        if r == "parked":
+            self.mid.append(tid)
+        elif r == "timeout":
+            self.anomalies.append("callback thread stuck after its unlocked fetch")
+        self._record(["cb", tid, how, state.get("outcome")])
+
     def ev_cb(self, ev):
-        _, tid, how = ev
+        _, tid, how = ev[:3]
+        if tid in self.fetching:
+            return self.ev_fetched(tid)
+        if tid in self.cb_started:
+            return            # replay of a schedule recorded with an unlocked fetch on a tree that fetches under the lock
         bi = self.trk_of_batch.index(tid)
         b = self.backend.batches[bi]
         b["started"] = True
@@ -532,6 +558,12 @@ class Driver:
         self.cb_threads[tid] = (t, state)
         r = GATE.wait_parked_or(t.ident, lambda: state["done"], WAIT_STEP)
         if r == "parked":
+            with GATE.cv:
+                kind = GATE.parked.get(t.ident)
+            if kind == "fetch":
+                self.fetching[tid] = how
+                self.script.append(["cbfetch", tid, how])
+                return
             self.mid.append(tid)
         elif r == "timeout":
             self.anomalies.append("callback thread stuck before its second section (lock held elsewhere?)")
@@ -655,6 +687,8 @@ class Driver:
             evs.append("cb")
         if self.mid:
             evs.append("cbfin")
+        if self.fetching:
+            evs.append("fetched")
         if self._consumer_idle() and self.gen is not None and not self.gen_done:
             if self._pull_likely_ready() or self.rng.random() < self.case.get("p_blocked_pull", 0.12) or not evs:
                 evs += ["pull", "pull"]
@@ -695,7 +729,7 @@ class Driver:
                     continue
                 break
             # bias: finish callbacks and dispatches promptly, pulls when something may be ready
-            weights = {"dispatch": 4, "cb": 3, "cbfin": 3, "pull": 2, "close": p_close * 10, "call": 5}
+            weights = {"dispatch": 4, "cb": 3, "cbfin": 3, "pull": 2, "close": p_close * 10, "call": 5, "fetched": 1}
             ws = [weights[e] for e in evs]
             k = self.rng.choices(evs, ws)[0] if sum(ws) > 0 else "pull"
             if self.case.get("policy") == "pull_first" and self.call_no == 1:
@@ -724,6 +758,8 @@ class Driver:
                 self.ev_cb(["cb", tid, "fail" if self.rng.random() < p_fail else "run"])
             elif k == "cbfin":
                 self.ev_cbfin(["cbfin", self.rng.choice(self.mid), self.rng.choice(bsizes)])
+            elif k == "fetched":
+                self.ev_fetched(self.rng.choice(sorted(self.fetching)))
             elif k == "pull":
                 if self.par._running and self.rng.random() < p_call2:
                     self.ev_call2(["call2"])
@@ -745,7 +781,7 @@ class Driver:
                     self.ev_call2(ev)
                 elif k == "dispatch":
                     self.ev_dispatch(ev)
-                elif k == "cb":
+                elif k in ("cb", "cbfetch"):
                     self.ev_cb(ev)
                 elif k == "cbfin":
                     self.ev_cbfin(ev)
@@ -776,6 +812,7 @@ class Driver:
         for cn, i in EXEC_LOG:
             execs.setdefault(cn, []).append(i)
         return {"id": self.case.get("id"), "events": self.events, "obs": self.obs, "snaps": self.snaps,
+                "script": self.script if len(self.script) != len(self.events) else None,
                 "anomalies": self.anomalies, "exec_log": execs,
                 "iter_threads": [len(x.threads) for x in self.inputs],
                 "reentered": any(x.reentered for x in self.inputs)}
